@@ -28,21 +28,21 @@ package authorizer
 //@ func (*authorizer).AuthorizeTierOperation$1
 //@   property C34
 //@   option safety off
-//@   ghost at call Authorize: authzDecision = res0 ; check cast(a, k8sauth.AttributesRecord).Verb == "get" && cast(a, k8sauth.AttributesRecord).Resource == "tiers" && cast(a, k8sauth.AttributesRecord).Name == *tierName && cast(a, k8sauth.AttributesRecord).Namespace == "" && cast(a, k8sauth.AttributesRecord).Subresource == "" && cast(a, k8sauth.AttributesRecord).ResourceRequest
+//@   ghost at call Authorize: authzDecision = res0 ; check cast(arg2, k8sauth.AttributesRecord).Verb == "get" && cast(arg2, k8sauth.AttributesRecord).Resource == "tiers" && cast(arg2, k8sauth.AttributesRecord).Name == *tierName && cast(arg2, k8sauth.AttributesRecord).Namespace == "" && cast(arg2, k8sauth.AttributesRecord).Subresource == "" && cast(arg2, k8sauth.AttributesRecord).ResourceRequest
 //@   ensures *decisionGetTier == authzDecision
 
 //@ -- goroutine 2: the caller's own verb on tier.<resource>, with the name exactly as requested
 //@ func (*authorizer).AuthorizeTierOperation$2
 //@   property C34
 //@   option safety off
-//@   ghost at call Authorize: authzDecision = res0 ; check cast(a, k8sauth.AttributesRecord).Verb == reqVerb(*attributes) && cast(a, k8sauth.AttributesRecord).Resource == *tierScopedResource && cast(a, k8sauth.AttributesRecord).Name == reqName(*attributes) && cast(a, k8sauth.AttributesRecord).Namespace == reqNamespace(*attributes) && cast(a, k8sauth.AttributesRecord).Subresource == reqSubresource(*attributes) && cast(a, k8sauth.AttributesRecord).ResourceRequest
+//@   ghost at call Authorize: authzDecision = res0 ; check cast(arg2, k8sauth.AttributesRecord).Verb == reqVerb(*attributes) && cast(arg2, k8sauth.AttributesRecord).Resource == *tierScopedResource && cast(arg2, k8sauth.AttributesRecord).Name == reqName(*attributes) && cast(arg2, k8sauth.AttributesRecord).Namespace == reqNamespace(*attributes) && cast(arg2, k8sauth.AttributesRecord).Subresource == reqSubresource(*attributes) && cast(arg2, k8sauth.AttributesRecord).ResourceRequest
 //@   ensures *decisionPolicy == authzDecision
 
 //@ -- goroutine 3: the caller's own verb on tier.<resource>, named <tier>.* (wildcard for the whole tier)
 //@ func (*authorizer).AuthorizeTierOperation$3
 //@   property C34
 //@   option safety off
-//@   ghost at call Authorize: authzDecision = res0 ; check cast(a, k8sauth.AttributesRecord).Verb == reqVerb(*attributes) && cast(a, k8sauth.AttributesRecord).Resource == *tierScopedResource && cast(a, k8sauth.AttributesRecord).Name == *tierName + ".*" && cast(a, k8sauth.AttributesRecord).Namespace == reqNamespace(*attributes) && cast(a, k8sauth.AttributesRecord).Subresource == reqSubresource(*attributes) && cast(a, k8sauth.AttributesRecord).ResourceRequest
+//@   ghost at call Authorize: authzDecision = res0 ; check cast(arg2, k8sauth.AttributesRecord).Verb == reqVerb(*attributes) && cast(arg2, k8sauth.AttributesRecord).Resource == *tierScopedResource && cast(arg2, k8sauth.AttributesRecord).Name == *tierName + ".*" && cast(arg2, k8sauth.AttributesRecord).Namespace == reqNamespace(*attributes) && cast(arg2, k8sauth.AttributesRecord).Subresource == reqSubresource(*attributes) && cast(arg2, k8sauth.AttributesRecord).ResourceRequest
 //@   ensures *decisionTierWildcard == authzDecision
 
 //@ -- logging only: touches no program state
